@@ -181,6 +181,17 @@ Definition token_to_string (vs : vars F) (t : token F) : str :=
   | TDuration _ | TTime _ _ | TDate _ _ | TDateTime _ _ | TDynamicType _ _ => s "?unmodelled?"
   end.
 
+(* VariableInfo::to_string (variable/mod.rs:29-33): the key under which Session::add_variable stores a variable -
+   ALL its name tokens, operators included, lower-cased and joined by one space.  (The assignment parser looks an
+   existing variable up under [name] below, which leaves operator tokens out: the two agree exactly when the name
+   holds no operator token.) *)
+Definition var_key (vs : vars F) (toks : list (token F)) : str :=
+  match toks with
+  | [] => []
+  | t :: r => fold_left (fun acc t' => acc ++ 32%N :: to_lowercase (token_to_string vs t')) r
+                        (to_lowercase (token_to_string vs t))
+  end.
+
 (* AssignmentParser::parse (assignment.rs:24-83) *)
 Fixpoint assign_name_loop (fuel : nat) (tokens : list (token F)) (vs : vars F) (idx : nat) (name : str) : nat * str :=
   (* `while let Some(token) = parser.consume_token()` starting with index = idx *)
@@ -190,7 +201,9 @@ Fixpoint assign_name_loop (fuel : nat) (tokens : list (token F)) (vs : vars F) (
     let idx1 := S idx in
     match nth_opt tokens idx1 with
     | None => (idx1, name)
-    | Some (TOperator c) => if N.eqb c OP_EQ then (S idx1, name) else assign_name_loop f tokens vs idx1 name
+    | Some (TOperator c) =>
+      if N.eqb c OP_EQ then (S idx1, name)
+      else assign_name_loop f tokens vs idx1 (name ++ 32%N :: to_lowercase (token_to_string vs (TOperator c)))
     | Some t => assign_name_loop f tokens vs idx1 (name ++ 32%N :: to_lowercase (token_to_string vs t))
     end
   end.
